@@ -1,14 +1,17 @@
 package main
 
 import (
+	"bytes"
 	"context"
 	"encoding/json"
 	"fmt"
 	"net"
+	"net/http/httptest"
 	"sort"
 	"sync"
 	"time"
 
+	"github.com/emicklei/go-restful"
 	appsv1 "k8s.io/api/apps/v1"
 	corev1 "k8s.io/api/core/v1"
 	extensionfake "k8s.io/apiextensions-apiserver/pkg/client/clientset/clientset/fake"
@@ -30,6 +33,7 @@ import (
 	fakeGalaxyCli "tkestack.io/galaxy/pkg/ipam/client/clientset/versioned/fake"
 	galaxylister "tkestack.io/galaxy/pkg/ipam/client/listers/galaxy/v1alpha1"
 	"tkestack.io/galaxy/pkg/ipam/cloudprovider/rpc"
+	ipamapi "tkestack.io/galaxy/pkg/ipam/api"
 	ipamcontext "tkestack.io/galaxy/pkg/ipam/context"
 	"tkestack.io/galaxy/pkg/ipam/schedulerplugin"
 	"tkestack.io/galaxy/pkg/ipam/schedulerplugin/util"
@@ -487,6 +491,27 @@ func (w *plugWorld) runOp(c map[string]interface{}) map[string]interface{} {
 		o["ip"], o["key"] = ip, key
 		ko := util.ParseKey(key)
 		setErr(w.plugin.Release(&schedulerplugin.ReleaseRequest{IP: net.ParseIP(ip), KeyObj: ko}))
+	case "api_pool":
+		// POST /v1/pool through the real PoolController (pool object written to the API server; pre-allocation under the pool lock)
+		pc := &ipamapi.PoolController{Client: w.gcli, PoolLister: galaxylister.NewPoolLister(w.poolIdx), LockPoolFunc: w.plugin.LockDpPool,
+			IPAM: w.plugin.GetIpam()}
+		pre, _ := c["prealloc"].(bool)
+		body, _ := json.Marshal(map[string]interface{}{"name": Str(c, "name"), "size": int(Num(c, "size")), "preAllocateIP": pre})
+		req := httptest.NewRequest("POST", "/v1/pool", bytes.NewReader(body))
+		req.Header.Set("Content-Type", "application/json")
+		rec := httptest.NewRecorder()
+		resp := restful.NewResponse(rec)
+		resp.SetRequestAccepts("application/json")
+		pc.CreateOrUpdate(restful.NewRequest(req), resp)
+		o["code"] = rec.Code
+		switch rec.Code {
+		case 200:
+		case 202:
+			o["res"] = "notenough"
+		default:
+			o["res"] = "err"
+			o["err"] = rec.Body.String()
+		}
 	case "sync_pod":
 		obj, exists, _ := w.podIdx.GetByKey(Str(c, "ns") + "/" + Str(c, "name"))
 		if !exists {
